@@ -189,11 +189,68 @@ Definition chk_r D T (cr : Z) : bool :=
   let t := c_shifted_tab T (t_Cr_r T) cr in (asm_r_y D cr =? w16 t) && small t.
 Definition chk_b D T (cb : Z) : bool :=
   let t := c_shifted_tab T (t_Cb_b T) cb in (asm_b_y D cb =? w16 t) && small t.
-Definition chk_g D T (cb cr : Z) : bool :=
-  let t := Z.shiftr (c_plain_tab (t_Cb_g T) cb + c_plain_tab (t_Cr_g T) cr) (t_bits T) in
-  (asm_g_y D cb cr =? w16 t) && small t.
-Definition chk_all D T : bool :=
-  sweep (chk_r D T) 0 256 && sweep (chk_b D T) 0 256 && sweep2 (chk_g D T) 0 256 0 256.
+Definition chk_all D T : bool := sweep (chk_r D T) 0 256 && sweep (chk_b D T) 0 256.
+
+(* G-Y, algebraic: with x = cb-128, z = cr-128, a = -F_0_344, b = F_0_285 = 2^16 - F_0_714:
+   ((a x + b z + h) >>a 16) - z  =  (a x + (b - 2^16) z + h) >>a 16 *)
+Lemma w16_minus128 c : 0 <= c <= 255 -> paddw c minus128 = w16 (c - 128).
+Proof.
+  intros. unfold paddw, minus128, psllw. change (w16 (65535 * 2 ^ 7)) with 65408.
+  unfold w16. replace (c + 65408) with (c - 128 + 1 * 65536) by lia. apply Z.mod_add. lia.
+Qed.
+Lemma g_generic a b h x z :
+  -128 <= x <= 127 -> -128 <= z <= 127 -> -32768 <= a < 32768 -> -32768 <= b < 32768 -> 0 <= h < 65536 ->
+  psubw (packssdw (psrad (paddd (pmaddwd (w16 x) (w16 z) (w16 a) (w16 b)) h) 16)) (w16 z) =
+  w16 ((a * x + (b - 65536) * z + h) / 65536).
+Proof.
+  intros Hx Hz Ha Hb Hh. unfold pmaddwd. rewrite !s16_w16 by lia. rewrite paddd_w32_l.
+  set (v := x * a + z * b + h).
+  assert (Hv : -8500000 <= v <= 8500000) by (unfold v; nia).
+  unfold psrad. rewrite s32_w32 by lia. change (2 ^ 16) with 65536.
+  assert (Hq : -200 <= v / 65536 <= 200) by (split; [apply Z.div_le_lower_bound; lia | apply Z.lt_succ_r; apply Z.div_lt_upper_bound; lia]).
+  unfold packssdw. rewrite s32_w32 by lia.
+  destruct (v / 65536 <? -32768) eqn:?; [lia|]. destruct (32767 <? v / 65536) eqn:?; [lia|].
+  unfold psubw.
+  replace (w16 (w16 (v / 65536) - w16 z)) with (w16 (v / 65536 - z)).
+  2:{ unfold w16. rewrite Zminus_mod_idemp_l, Zminus_mod_idemp_r. reflexivity. }
+  f_equal.
+  replace (a * x + (b - 65536) * z + h) with (v + (- z) * 65536) by (unfold v; lia).
+  rewrite Z.div_add by lia. lia.
+Qed.
+
+Lemma asm_g_y_eq D T cb cr : dc_consts_agree D T -> t_bits T = 16 -> d_HALF D = 32768 ->
+  -32768 <= - d_F_0_344 D -> 0 <= d_F_0_344 D -> d_F_0_714 D <= 98304 -> 32769 <= d_F_0_714 D ->
+  0 <= d_MF0344 D < 65536 -> 0 <= d_F0285 D < 65536 ->
+  0 <= cb <= 255 -> 0 <= cr <= 255 ->
+  asm_g_y D cb cr = w16 (Z.shiftr (c_plain_tab (t_Cb_g T) cb + c_plain_tab (t_Cr_g T) cr) (t_bits T)).
+Proof.
+  intros (Hb & _ & _ & A714 & A344 & _ & _ & Hh & Z0 & _ & D285 & _ & _ & _ & R344 & R285 & _) HT HH B1 B2 B3 B4 W1 W2 Hcb Hcr.
+  unfold asm_g_y. rewrite !w16_minus128 by lia. rewrite Hb, HT in *. change (2 ^ 16) with 65536 in *.
+  replace (d_MF0344 D) with (w16 (- d_F_0_344 D)).
+  2:{ rewrite <- R344. unfold s16, w16. rewrite Zminus_mod_idemp_l. replace (d_MF0344 D + 32768 - 32768) with (d_MF0344 D) by lia. apply Z.mod_small. lia. }
+  replace (d_F0285 D) with (w16 (d_F_0_285 D)).
+  2:{ rewrite <- R285. unfold s16, w16. rewrite Zminus_mod_idemp_l. replace (d_F0285 D + 32768 - 32768) with (d_F0285 D) by lia. apply Z.mod_small. lia. }
+  rewrite HH. rewrite g_generic by lia.
+  rewrite shiftr_div by lia. change (2 ^ 16) with 65536.
+  f_equal. f_equal. unfold c_plain_tab, c_tab. rewrite <- A714, <- A344, <- Hh, Z0, HH, D285. lia.
+Qed.
+
+Definition g_side (D : dc_consts) (T : ycc_tabs) : bool :=
+  (t_bits T =? 16) && (d_HALF D =? 32768) && (0 <=? d_F_0_344 D) && (d_F_0_344 D <=? 32768) &&
+  (d_F_0_714 D <=? 98304) && (32769 <=? d_F_0_714 D) &&
+  (0 <=? d_MF0344 D) && (d_MF0344 D <? 65536) && (0 <=? d_F0285 D) && (d_F0285 D <? 65536).
+
+(* the G term is small: |(-22554 x - 46802 z + 32768) >> 16| <= 1000 follows from the byte ranges *)
+Lemma g_small T cb cr : t_bits T = 16 -> -65536 <= fst (t_Cb_g T) <= 65536 -> -131072 <= fst (t_Cr_g T) <= 131072 ->
+  -65536 <= snd (t_Cb_g T) <= 65536 -> snd (t_Cr_g T) = 0 -> 0 <= cb <= 255 -> 0 <= cr <= 255 ->
+  -1000 <= Z.shiftr (c_plain_tab (t_Cb_g T) cb + c_plain_tab (t_Cr_g T) cr) (t_bits T) <= 1000.
+Proof.
+  intros HT A B C Dz Hcb Hcr. rewrite HT, shiftr_div by lia. change (2 ^ 16) with 65536.
+  unfold c_plain_tab, c_tab. rewrite Dz.
+  set (v := fst (t_Cb_g T) * (cb - 128) + snd (t_Cb_g T) + (fst (t_Cr_g T) * (cr - 128) + 0)).
+  assert (-26000000 <= v <= 26000000) by (unfold v; nia).
+  split; [apply Z.div_le_lower_bound; lia | apply Z.lt_succ_r; apply Z.div_lt_upper_bound; lia].
+Qed.
 
 Lemma chk_jdcolor_sse2 : chk_all jdcolor_sse2_consts c_jdcolor_tabs = true. Proof. vm_compute. reflexivity. Qed.
 Lemma chk_jdcolor_avx2 : chk_all jdcolor_avx2_consts c_jdcolor_tabs = true. Proof. vm_compute. reflexivity. Qed.
@@ -203,22 +260,30 @@ Lemma chk_jdmerge_avx2 : chk_all jdmerge_avx2_consts c_jdmerge_tabs = true. Proo
 Lemma small_spec t : small t = true -> -1000 <= t <= 1000.
 Proof. unfold small. lia. Qed.
 
-Lemma ycc_rgb_of_chk D T : chk_all D T = true ->
+Lemma ycc_rgb_of_chk D T : chk_all D T = true -> dc_consts_agree D T -> g_side D T = true ->
   forall y cb cr, is_byte y -> is_byte cb -> is_byte cr -> asm_ycc_rgb D y cb cr = c_ycc_rgb T y cb cr.
 Proof.
-  unfold chk_all, is_byte. intros H y cb cr Hy Hcb Hcr.
-  apply andb_prop in H. destruct H as [H Hg]. apply andb_prop in H. destruct H as [Hr Hb].
+  unfold chk_all, is_byte. intros H Ag Gs y cb cr Hy Hcb Hcr.
+  apply andb_prop in H. destruct H as [Hr Hb].
   pose proof (sweep_sound _ _ _ Hr cr ltac:(lia)) as R. cbv beta in R.
   pose proof (sweep_sound _ _ _ Hb cb ltac:(lia)) as B. cbv beta in B.
-  pose proof (sweep2_sound _ _ _ _ _ Hg cb cr ltac:(lia) ltac:(lia)) as G. cbv beta in G.
-  unfold chk_r in R. unfold chk_b in B. unfold chk_g in G.
+  unfold chk_r in R. unfold chk_b in B.
   apply andb_prop in R. destruct R as [R1 R2]. apply andb_prop in B. destruct B as [B1 B2].
-  apply andb_prop in G. destruct G as [G1 G2].
-  apply Z.eqb_eq in R1. apply Z.eqb_eq in B1. apply Z.eqb_eq in G1.
-  apply small_spec in R2. apply small_spec in B2. apply small_spec in G2.
+  apply Z.eqb_eq in R1. apply Z.eqb_eq in B1.
+  apply small_spec in R2. apply small_spec in B2.
+  unfold g_side in Gs. repeat (apply andb_prop in Gs; destruct Gs as [Gs ?]).
+  assert (G1 := asm_g_y_eq D T cb cr Ag ltac:(lia) ltac:(lia) ltac:(lia) ltac:(lia) ltac:(lia) ltac:(lia) ltac:(lia) ltac:(lia) Hcb Hcr).
+  assert (G2 : -1000 <= Z.shiftr (c_plain_tab (t_Cb_g T) cb + c_plain_tab (t_Cr_g T) cr) (t_bits T) <= 1000).
+  { destruct Ag as (_ & _ & _ & A714 & A344 & _ & _ & Hh & Z0 & _).
+    apply g_small; try lia. }
   unfold asm_ycc_rgb, c_ycc_rgb, asm_ycc_r, asm_ycc_g, asm_ycc_b, c_ycc_r, c_ycc_g, c_ycc_b.
   rewrite R1, B1, G1. rewrite !pack_add_clamp by lia. reflexivity.
 Qed.
+
+Lemma gs_jdcolor_sse2 : g_side jdcolor_sse2_consts c_jdcolor_tabs = true. Proof. vm_compute. reflexivity. Qed.
+Lemma gs_jdcolor_avx2 : g_side jdcolor_avx2_consts c_jdcolor_tabs = true. Proof. vm_compute. reflexivity. Qed.
+Lemma gs_jdmerge_sse2 : g_side jdmerge_sse2_consts c_jdmerge_tabs = true. Proof. vm_compute. reflexivity. Qed.
+Lemma gs_jdmerge_avx2 : g_side jdmerge_avx2_consts c_jdmerge_tabs = true. Proof. vm_compute. reflexivity. Qed.
 
 Theorem simd_ycc_rgb_eq_all y cb cr : is_byte y -> is_byte cb -> is_byte cr ->
   asm_ycc_rgb jdcolor_sse2_consts y cb cr = c_ycc_rgb c_jdcolor_tabs y cb cr /\
@@ -227,10 +292,10 @@ Theorem simd_ycc_rgb_eq_all y cb cr : is_byte y -> is_byte cb -> is_byte cr ->
   asm_ycc_rgb jdmerge_avx2_consts y cb cr = c_ycc_rgb c_jdmerge_tabs y cb cr.
 Proof.
   intros. repeat split.
-  - apply (ycc_rgb_of_chk _ _ chk_jdcolor_sse2); assumption.
-  - apply (ycc_rgb_of_chk _ _ chk_jdcolor_avx2); assumption.
-  - apply (ycc_rgb_of_chk _ _ chk_jdmerge_sse2); assumption.
-  - apply (ycc_rgb_of_chk _ _ chk_jdmerge_avx2); assumption.
+  - apply (ycc_rgb_of_chk _ _ chk_jdcolor_sse2 jdcolor_sse2_agree gs_jdcolor_sse2); assumption.
+  - apply (ycc_rgb_of_chk _ _ chk_jdcolor_avx2 jdcolor_avx2_agree gs_jdcolor_avx2); assumption.
+  - apply (ycc_rgb_of_chk _ _ chk_jdmerge_sse2 jdmerge_sse2_agree gs_jdmerge_sse2); assumption.
+  - apply (ycc_rgb_of_chk _ _ chk_jdmerge_avx2 jdmerge_avx2_agree gs_jdmerge_avx2); assumption.
 Qed.
 
 Theorem simd_merged_eq_all y0 y1 cb cr : is_byte y0 -> is_byte y1 -> is_byte cb -> is_byte cr ->
@@ -245,8 +310,8 @@ Qed.
 
 Example ycc_rgb_nonvacuous :
   (* saturation both ways and an interior point *)
-  asm_ycc_rgb jdcolor_sse2_consts 255 255 255 = (255, 167, 255) /\
-  c_ycc_rgb c_jdcolor_tabs 255 255 255 = (255, 167, 255) /\
+  asm_ycc_rgb jdcolor_sse2_consts 255 255 255 = (255, 121, 255) /\
+  c_ycc_rgb c_jdcolor_tabs 255 255 255 = (255, 121, 255) /\
   asm_ycc_rgb jdcolor_avx2_consts 0 0 0 = (0, 135, 0) /\
   c_ycc_rgb c_jdcolor_tabs 0 0 0 = (0, 135, 0) /\
   c_ycc_rgb c_jdmerge_tabs 100 90 200 = (201, 62, 33) /\
